@@ -268,6 +268,14 @@ def simplifications(st):
             s = dict(st)
             s.pop("alt")
             yield s
+    if op == "FLATTEN" and st.get("fail"):
+        s = dict(st)
+        s.pop("fail")
+        yield s
+        if st["fail"] > 1:
+            s = dict(st)
+            s["fail"] = 1
+            yield s
     if op == "SINK_FAIL" and st["n"] > 1:
         s = dict(st)
         s["n"] = 1
